@@ -170,3 +170,19 @@ Theorem C06_resolver_cancelled_never_runs :
     DepSafe.dreach c d d' -> DepExec.dstep c d' t = Some (d'', Exec.LBody i) -> False.
 Proof. exact Fidelity.dep_cancelled_never_runs. Qed.
 Print Assumptions C06_resolver_cancelled_never_runs.
+
+(* ---- a started call is never turned into a cancelled one, also in the per-call model and under the
+   dependency resolver (every step of every thread; Proofs/ExecStarted.v) ---- *)
+Theorem C06_percall_started_call_is_never_cancelled :
+  forall c x t x' l i,
+    StepExec.xstep c x t = Some (x', l) -> ExecStarted.started (getf (StepExec.base x) i) ->
+    ExecStarted.started (getf (StepExec.base x') i).
+Proof. exact ExecStarted.step_started_stays. Qed.
+Print Assumptions C06_percall_started_call_is_never_cancelled.
+
+Theorem C06_resolver_started_call_is_never_cancelled :
+  forall c d t d' l i,
+    DepExec.dstep c d t = Some (d', l) -> ExecStarted.started (getf (DepExec.dbase d) i) ->
+    ExecStarted.started (getf (DepExec.dbase d') i).
+Proof. exact ExecStarted.dep_started_stays. Qed.
+Print Assumptions C06_resolver_started_call_is_never_cancelled.
